@@ -71,19 +71,19 @@ theorem collect_sim (adv : Bool) (pr : Bool) (S : List Helper) (D : NoExp) : ∀
     simp only [List.map_cons, collectArgs, consume_mid]
     have hsh := shift Q (r.map some) none pr
     have hfs := filterSome_snoc_none Q
-    by_cases h1 : (tok.text == "," && depth == 1) = true
+    by_cases h1 : (dtext tok == "," && depth == 1) = true
     · rw [if_pos h1] at h ⊢
       rw [hsh]
       obtain ⟨Q', hq, hc⟩ := ih (Q ++ [none]) _ _ _ f' _ _ hf' h
       exact ⟨Q', by rw [hq, hfs], hc⟩
     · rw [if_neg h1] at h ⊢
-      by_cases h2 : (tok.text == "(") = true
+      by_cases h2 : (dtext tok == "(") = true
       · rw [if_pos h2] at h ⊢
         rw [hsh]
         obtain ⟨Q', hq, hc⟩ := ih (Q ++ [none]) _ _ _ f' _ _ hf' h
         exact ⟨Q', by rw [hq, hfs], hc⟩
       · rw [if_neg h2] at h ⊢
-        by_cases h3 : (tok.text == ")") = true
+        by_cases h3 : (dtext tok == ")") = true
         · rw [if_pos h3] at h ⊢
           by_cases h4 : (depth == 1) = true
           · rw [if_pos h4] at h ⊢
@@ -145,7 +145,7 @@ theorem mstep_call (c : Cfg) (tbl : Table) (P : List (Option Tok)) (S : List Hel
     (a lp : Tok) (r : List Tok) (m : Macro) (ps : List String) (args : List (List Tok)) (rest : List Tok)
     (hk : (a.kind != TKind.ident) = false) (hd : (a.text == "defined") = false)
     (hq : (!a.expandable || D.contains (some a.text)) = false) (hm : tbl.get a.text = some m) (ha : m.args = some ps)
-    (hlp : lp.text = "(") (hsp : splitArgs r [] [] 1 = some (args, rest)) :
+    (hlp : dtext lp = "(") (hsp : splitArgs r [] [] 1 = some (args, rest)) :
     ∃ P2, filterSome P2 = filterSome P ∧
       step c tbl ⟨⟨P ++ some a :: some lp :: r.map some, P.length, pr⟩ :: S, D, F, none⟩
         = processArgs c a.pw m args [] ⟨⟨P2 ++ rest.map some, P2.length, pr⟩ :: S, D, F, none⟩ := by
@@ -170,11 +170,11 @@ theorem mstep_bare (c : Cfg) (tbl : Table) (P R : List (Option Tok)) (S : List H
     (a x : Tok) (m : Macro) (ps : List String)
     (hk : (a.kind != TKind.ident) = false) (hd : (a.text == "defined") = false)
     (hq : (!a.expandable || D.contains (some a.text)) = false) (hm : tbl.get a.text = some m) (ha : m.args = some ps)
-    (hx : (x.text != "(") = true) :
+    (hx : (dtext x != "(") = true) :
     step c tbl ⟨⟨P ++ some a :: some x :: R, P.length, pr⟩ :: S, D, F, none⟩
       = .cont ⟨⟨(P ++ [some a]) ++ some x :: R, (P ++ [some a]).length, pr⟩ :: S, D, F, none⟩ := by
   have hnl : ¬ (P.length ≥ (P ++ some a :: some x :: R).length) := by simp
-  have hx' : (some x.text != some "(") = true := by simpa using hx
+  have hx' : (some (dtext x) != some "(") = true := by simpa using hx
   simp only [step, hnl, if_false, getElem?_mid, hk, Bool.false_eq_true, hd, hq, hm, ha, stepCall, set_mid']
   rw [shift P (some x :: R) none pr]
   simp only [peekDown_mid, Option.map_some, hx', if_true]
